@@ -118,7 +118,8 @@ def load_known():
 def sanitizer_env():
     e = dict(os.environ)
     e["ASAN_OPTIONS"] = ("exitcode=99:abort_on_error=0:detect_leaks=1:allocator_may_return_null=0:"
-                         "max_allocation_size_mb=2048:detect_stack_use_after_return=0:symbolize=1:print_summary=1")
+                         "max_allocation_size_mb=2048:detect_stack_use_after_return=0:symbolize=1:print_summary=1:"
+                         "quarantine_size_mb=64:malloc_context_size=10")  # keeps worker RSS flat (stack depot growth under rapidcheck)
     e["UBSAN_OPTIONS"] = "exitcode=98:print_stacktrace=1:halt_on_error=1"
     e["LSAN_OPTIONS"] = "exitcode=97"
     e["ASAN_SYMBOLIZER_PATH"] = shutil.which("llvm-symbolizer") or shutil.which("llvm-symbolizer-14") or ""
